@@ -50,8 +50,11 @@ def gen_cases(tier, rng):
                     if axis % nd == t % nd:
                         continue
                     for V in (1, 2, 3, 4):
-                        for pad in ("none", "edge", "constant"):
-                            cases.append({"op": "stack", "shape": sh, "axis": axis, "time_axis": t, "V": V, "pad": pad})
+                        for pad in ("none", "edge", "constant", "reflect", "symmetric", "wrap"):
+                            if pad not in ("none", "constant") and sh[t % nd] == 0:
+                                continue  # numpy cannot extend an empty axis from its own samples
+                            for cval in ((0, 7) if pad == "constant" else (0,)):
+                                cases.append({"op": "stack", "shape": sh, "axis": axis, "time_axis": t, "V": V, "pad": pad, "cval": cval})
         # Deltas
         for axis in range(-nd, nd):
             if sh[axis % nd] == 0:
@@ -62,8 +65,9 @@ def gen_cases(tier, rng):
                     for K in (0, 1, 2):
                         for W in (1, 2):
                             for mode in MODES:
-                                cases.append({"op": "deltas", "shape": sh, "axis": axis, "target_axis": tgt, "K": K,
-                                              "cat": cat, "W": W, "mode": mode})
+                                for cval in ((0, -4) if mode in ("constant", "linear_ramp") else (0,)):
+                                    cases.append({"op": "deltas", "shape": sh, "axis": axis, "target_axis": tgt, "K": K,
+                                                  "cat": cat, "W": W, "mode": mode, "cval": cval})
     rng.shuffle(cases)
     n = 2500 if tier == "quick" else 30000
     return cases[:n]
@@ -97,13 +101,26 @@ def export_parallel(cases, shards=12):
     return rows, res[0][1]
 
 
-def expected_cell(cell, xflat):
-    """exact rational value of a delta cell"""
+def expected_cell(cell, xflat, cval=0):
+    """exact rational value of a delta cell (source -1 is the padding constant / ramp end value)"""
     tot = 0
     for src, num in cell["terms"]:
-        if src >= 0:
-            tot += num * int(xflat[src])
+        tot += num * (int(xflat[src]) if src >= 0 else cval)
     return Fraction(tot, cell["den"])
+
+
+def pad_kwargs(c):
+    """keyword arguments handed through to numpy.pad"""
+    mode = c["pad"] if c["op"] == "stack" else c["mode"]
+    if c.get("cval", 0) == 0:
+        return {}
+    return {"constant_values": c["cval"]} if mode == "constant" else {"end_values": c["cval"]}
+
+
+def build(c):
+    if c["op"] == "stack":
+        return post.Stack(c["V"], time_axis=c["time_axis"], pad_mode=None if c["pad"] == "none" else c["pad"], **pad_kwargs(c))
+    return post.Deltas(c["K"], target_axis=c["target_axis"], concatenate=c["cat"], context_window=c["W"], pad_mode=c["mode"], **pad_kwargs(c))
 
 
 def check_case(run, c, row, nprng, k):
@@ -117,38 +134,36 @@ def check_case(run, c, row, nprng, k):
                 x = nprng.randint(-9, 10, size=sh).astype(dt)
             xflat = x.reshape(-1)
             in_place = bool((k + (fill == "random")) & 1)
-            arg = x.copy()
+            layout = common.LAYOUTS[(k // 2 + (fill == "random") + np.dtype(dt).itemsize) % len(common.LAYOUTS)]
+            arg = common.relayout(x, layout)
             if not in_place:
                 arg.flags.writeable = False
             try:
-                if c["op"] == "stack":
-                    p = post.Stack(c["V"], time_axis=c["time_axis"], pad_mode=None if c["pad"] == "none" else c["pad"])
-                else:
-                    p = post.Deltas(c["K"], target_axis=c["target_axis"], concatenate=c["cat"], context_window=c["W"], pad_mode=c["mode"])
+                p = build(c)
                 got = p.apply(arg, axis=c["axis"], in_place=in_place)
             except Exception as e:
-                run.violation({"kind": c["op"] + "_raised", "case": c, "dtype": str(np.dtype(dt)), "in_place": in_place, "error": repr(e)})
+                run.violation({"kind": c["op"] + "_raised", "case": c, "dtype": str(np.dtype(dt)), "in_place": in_place, "layout": layout, "error": repr(e)})
                 return
             run.evaluations += 1
             want_shape = tuple(row["shape"])
             if tuple(got.shape) != want_shape:
                 run.violation({"kind": c["op"] + "_shape", "case": c, "got": list(got.shape), "definition": list(want_shape), "dtype": str(np.dtype(dt))})
                 return
-            if got.dtype != np.dtype(dt):
-                run.violation({"kind": c["op"] + "_dtype", "case": c, "got": str(got.dtype), "input": str(np.dtype(dt))})
+            if got.dtype.newbyteorder("=") != arg.dtype.newbyteorder("="):  # (the byte order is storage, not type)
+                run.violation({"kind": c["op"] + "_dtype", "case": c, "got": str(got.dtype), "input": str(arg.dtype), "layout": layout})
                 return
-            g = np.ascontiguousarray(got).reshape(-1)
+            g = np.ascontiguousarray(got).astype(dt).reshape(-1)
             if c["op"] == "stack":
                 m = np.array(row["map"], dtype=np.int64).reshape(-1)
-                want = np.where(m >= 0, xflat[np.maximum(m, 0)] if size else np.zeros(len(m), dtype=dt), 0).astype(dt) if len(m) else np.zeros(0, dtype=dt)
+                want = np.where(m >= 0, xflat[np.maximum(m, 0)] if size else np.zeros(len(m), dtype=dt), c.get("cval", 0)).astype(dt) if len(m) else np.zeros(0, dtype=dt)
                 if not np.array_equal(g, want):
                     i = int(np.argwhere(g != want)[0][0])
-                    run.violation({"kind": "stack_cell_from_wrong_source", "case": c, "dtype": str(np.dtype(dt)), "in_place": in_place,
+                    run.violation({"kind": "stack_cell_from_wrong_source", "case": c, "dtype": str(np.dtype(dt)), "in_place": in_place, "layout": layout,
                                    "cell": i, "got": float(g[i]), "definition_source": int(m[i]), "definition": float(want[i])})
                     return
             else:
                 for i, cell in enumerate(row["map"]):
-                    ex = expected_cell(cell, xflat)
+                    ex = expected_cell(cell, xflat, c.get("cval", 0))
                     if np.issubdtype(dt, np.integer):
                         lo = int(ex) if ex >= 0 else -int(-ex)  # truncation toward zero, as astype does
                         ok = {lo}
@@ -159,10 +174,10 @@ def check_case(run, c, row, nprng, k):
                         tol = 1e-9 if dt == np.float64 else 1e-5
                         good = abs(float(g[i]) - float(ex)) <= tol * max(1.0, abs(float(ex)))
                     if not good:
-                        run.violation({"kind": "deltas_cell_value", "case": c, "dtype": str(np.dtype(dt)), "in_place": in_place, "cell": i,
+                        run.violation({"kind": "deltas_cell_value", "case": c, "dtype": str(np.dtype(dt)), "in_place": in_place, "layout": layout, "cell": i,
                                        "got": float(g[i]), "definition": float(ex), "terms": cell["terms"], "den": cell["den"]})
                         return
-            if not in_place and arg.tobytes() != x.tobytes():
+            if not in_place and not np.array_equal(arg, x):
                 run.violation({"kind": c["op"] + "_modified_input", "case": c, "dtype": str(np.dtype(dt))})
                 return
 
@@ -173,26 +188,22 @@ def instance_reuse(run, cases, rows, nprng):
     groups = {}
     for c, row in zip(cases, rows):
         if c["op"] == "stack":
-            key = ("stack", c["V"], c["time_axis"], c["pad"])
+            key = ("stack", c["V"], c["time_axis"], c["pad"], c.get("cval", 0))
         else:
-            key = ("deltas", c["K"], c["target_axis"], c["cat"], c["W"], c["mode"])
+            key = ("deltas", c["K"], c["target_axis"], c["cat"], c["W"], c["mode"], c.get("cval", 0))
         groups.setdefault(key, []).append((c, row))
     n = 0
     for key, items in groups.items():
         if len(items) < 2:
             continue
         items = items[:6]
-        if key[0] == "stack":
-            inst = post.Stack(key[1], time_axis=key[2], pad_mode=None if key[3] == "none" else key[3])
-        else:
-            inst = post.Deltas(key[1], target_axis=key[2], concatenate=key[3], context_window=key[4], pad_mode=key[5])
+        inst = build(items[0][0])
         for (c, row) in items:
             sh = tuple(c["shape"])
             x = (np.arange(int(np.prod(sh))) + 1).reshape(sh).astype(np.float64)
             try:
                 got = inst.apply(x, axis=c["axis"])
-                fresh = (post.Stack(key[1], time_axis=key[2], pad_mode=None if key[3] == "none" else key[3]) if key[0] == "stack" else
-                         post.Deltas(key[1], target_axis=key[2], concatenate=key[3], context_window=key[4], pad_mode=key[5])).apply(x, axis=c["axis"])
+                fresh = build(c).apply(x, axis=c["axis"])
             except Exception as e:
                 run.violation({"kind": key[0] + "_reused_instance_raised", "config": list(key), "case": c, "error": repr(e),
                                "sequence": [it[0]["shape"] for it in items]})
@@ -225,7 +236,7 @@ def run(tier, seed):
     run.traces += len(cases)
     run.sample({"case": cases[0], "spec_row": {"shape": rows[0]["shape"], "map_head": rows[0]["map"][:4]}})
     run.sample({"case": cases[1]})
-    run.extra["rule"] = "cases drawn (seeded) from: shapes with 1-3 dims and extents 0..3 (+ a few longer), every axis/target_axis/time_axis incl. negative, num_deltas 0..2, context 1..2, 7 pad modes (incl. the width-dependent linear_ramp and mean), num_vectors 1..4, 3 stack pad modes"
+    run.extra["rule"] = "cases drawn (seeded) from: shapes with 1-3 dims and extents 0..3 (+ a few longer), every axis/target_axis/time_axis incl. negative, num_deltas 0..2, context 1..2, 7 pad modes (incl. the width-dependent linear_ramp and mean), num_vectors 1..4, 6 stack pad modes, padding constants / ramp end values"
     run.extra["cases"] = len(cases)
     return run.finish()
 
